@@ -69,7 +69,7 @@ SetState == /\ Guard /\ saved # <<>> /\ Len(ctx) = 0 /\ stack' = saved[1] /\ UNC
 Next == \/ \E s \in Seeds : PushSeed(s) \/ Enter(s)
         \/ \E n \in 1..MaxSpawn : \/ Spawn(n) \/ \E i \in 0..(n - 1) : SpawnPush(n, i) \/ EnterSpawned(n, i)
         \/ Pop \/ Exit \/ Raise \/ GetState \/ SetState
-        \/ \E k \in 1..3 : Draw(k)
+        \/ \E k \in 1..6 : Draw(k)     \* normal/uniform/pm1, real and complex/integer element types
 Spec == Init /\ [][Next]_vars
 \* ---- properties ---------------------------------------------------------------------------------------
 \* leaving a context whose body was balanced restores the previous generator exactly (identity, children, position)
